@@ -3,6 +3,8 @@ package logqlengine
 import (
 	"maps"
 	"regexp"
+	"slices"
+	"strings"
 
 	"github.com/cespare/xxhash/v2"
 	"go.opentelemetry.io/collector/pdata/pcommon"
@@ -30,6 +32,11 @@ func newAggregatedLabels(set LabelSet, by, without map[string]struct{}) *aggrega
 			name:  string(l),
 			value: v.AsString(),
 		})
+	})
+	// Map iteration order is random: sort entries, so that equal label sets
+	// always produce the same sequence (and hence the same grouping key).
+	slices.SortFunc(labels, func(a, b labelEntry) int {
+		return strings.Compare(a.name, b.name)
 	})
 
 	return &aggregatedLabels{
